@@ -164,15 +164,15 @@ def rand_int_arg(rng, verb):
     if verb == "RFMUTE":
         return rng.choice([0, 0, 1, 2, -1])
     if verb == "SETTA":
-        return rng.choice([0, 0, 1, 2, 63, -3])
+        return rng.choice([0, 0, 1, 2, 63, -3, 64, 127, -128])
     if verb == "SETPOWER":
-        return rng.choice([0, 0, 2, 10, 20])
+        return rng.choice([0, 0, 2, 10, 20, -5, 200])
     if verb == "FAKE_DROP":
         return rng.choice([-1, 0, 1, 2, 3, 5])
     if verb in ("FAKE_TOA", "FAKE_CI", "FAKE_RSSI"):
         return rng.choice([-300, -70, -5, 0, 0, 1, 3, 30, 200, 1000])
     if verb == "FAKE_TRXC_DELAY":
-        return rng.choice([0, 5])
+        return rng.choice([0, 5, 0, 5, -1, -100, 1000])
     return rng.choice([-1, 0, 1, 7, 100])
 
 
